@@ -19,6 +19,7 @@ METHODS = {
     "foo": ('method = "FOO", allow(non_standard_methods)', ["FOO"]),
     "anyns": ("allow(any_method, non_standard_methods)", "ANYNS"),
 }
+EXTRA_PATHS = {"y": "/{y}", "as": "/a/{*s}"}  # `ay` (= /a/{y}) already exists in gen_app.ROUTE_PATHS
 MIXED = ('method = ["GET", "FOO"], allow(non_standard_methods)', ["GET", "FOO"])
 N_FALLBACKS = 44
 
@@ -35,6 +36,19 @@ def gen(w, catalog):
             w("}")
             catalog.append({"id": ident, "kind": "handler", "macro": "route", "inputs": [], "fallible": False, "err": None,
                             "path": path, "methods": methods, "route_family": True, "route_copy": 1 if prefix == "rt" else 2})
+    # the same pattern SHAPES as `ax`, `x`, `ar` spelled with other parameter names (two templates that are the same route)
+    for pk, path in EXTRA_PATHS.items():
+        for mk in ("get", "post", "gp"):
+            attr, methods = METHODS[mk]
+            name = f"rt_{pk}_{mk}"
+            ident = name.upper()
+            w(f"#[pavex::route({attr}, path = \"{path}\", id = \"{ident}\")]")
+            w(f"pub fn {name}(p: &pavex::request::path::RawPathParams<'_, '_>) -> pavex::Response {{")
+            w(f"    rt::call_params(\"handler\", \"{ident}\", p);")
+            w(f"    rt::respond(\"h\", \"{ident}\")")
+            w("}")
+            catalog.append({"id": ident, "kind": "handler", "macro": "route", "inputs": [], "fallible": False, "err": None,
+                            "path": path, "methods": methods, "route_family": True, "route_copy": 1})
     for k in range(N_FALLBACKS):
         name = f"rfb{k:02d}"
         ident = name.upper()
